@@ -85,17 +85,37 @@ def _fallback_grid(spec, tb, fb, rs):
     return grid if on and on >= 4 * off else None
 
 
+def _sliver(spec, tb, fb):
+    """Mechanism predicate of the open finding F31: a polygon (part) whose extent on one axis is below 1 % of that
+    axis's buffer.  GEOS simplifies buffer input at that tolerance, the ring degenerates to a doubled line, and the
+    mitred outline of that degenerate ring is not extended beyond the ring's closing vertex: the side next to it
+    stays where the original ended (the other sides reach up to the mitre limit)."""
+    if spec["type"] not in ("Polygon", "MultiPolygon") or not (tb > 0 and fb > 0):
+        return False
+    polys = [spec["coordinates"]] if spec["type"] == "Polygon" else spec["coordinates"]
+    for poly in polys:
+        shell = poly[0]
+        w = (max(p[0] for p in shell) - min(p[0] for p in shell)) / tb
+        h = (max(p[1] for p in shell) - min(p[1] for p in shell)) / fb
+        if min(w, h) < GEOS_BUFFER_SIMPLIFY:
+            return True
+    return False
+
+
 def _mech(spec, tb, fb):
     if _touches_edge_on_zero_axis(spec, tb, fb):
         return ":zero_buffer_on_domain_edge"
     if _zero_axis_precision(spec, tb, fb):
         return ":extreme_axis_scaling"
+    if _sliver(spec, tb, fb):
+        return ":sliver_below_buffer_simplification"
     return ""
 
 
 _ALLOWED = {
     ":zero_buffer_on_domain_edge": ("raises:KeyError", "bounds_extend", "monotonicity", "contains_original"),
     ":extreme_axis_scaling": ("bounds_extend", "monotonicity", "contains_original", "raises:KeyError"),
+    ":sliver_below_buffer_simplification": ("bounds_extend",),
 }
 
 
@@ -352,7 +372,7 @@ def judge(ctx, spec, tb, fb, tb2=None, fb2=None):
         key = "monotonicity"
         if edge or edge2:
             key = _key("monotonicity", edge or edge2)
-        elif _has_corner(spec) and ex <= MITRE_LIMIT + 0.5:
+        if key == "monotonicity" and _has_corner(spec) and ex <= MITRE_LIMIT + 0.5:
             # (a mitre spike is cut off at shapely's default mitre limit of 5 buffer units: a larger excess is something else)
             key += ":mitre_corner"
         ctx.violate("monotonicity", key, observed={"excess_in_buffer_units": ex}, expected="<= 0.006", spec=sp)
